@@ -13,206 +13,179 @@ def TEv.during : TEv → Bool
 /-- a boundary between two phases: the end of a micro tick, or the AFTER-phase notification of a time step -/
 def TEv.boundary : TEv → Bool
   | .microTick => true
-  | .newPhase true _ => true
+  | .newPhase .after _ => true
   | _ => false
 
-theorem slots_ge : ∀ (evs : List TEv) (fl len i : Nat) (b : Nat × Nat) (e : TEv),
-    (slots fl len evs)[i]? = some (some b) → evs[i]? = some e → e.during = false → ¬ keyLt b (fl, len - 1) := by
+/-- (interval, index of the last open phase) -/
+def St.key (st : St) : Nat × Nat := (st.flushes, st.phases.length - 1)
+
+/-- how the counters move in one step -/
+theorem step_counters (j : Nat) (st : St) (e : TEv) :
+    ((step j st e).2.flushes = st.flushes ∧ st.phases.length ≤ (step j st e).2.phases.length ∧
+      (e.boundary = true → st.phases.length < (step j st e).2.phases.length)) ∨
+    ((step j st e).2.flushes = st.flushes + 1 ∧ 1 ≤ (step j st e).2.phases.length) := by
+  cases e with
+  | powerOn => left; simp [step, TEv.boundary]
+  | microTick => left; simp [step]
+  | finish now => right; simp [step, flush]
+  | set d n bits => left; simp only [step]; split <;> simp [modifyLast_length, TEv.boundary]
+  | rst d n v => left; simp only [step]; split <;> simp [modifyLast_length, TEv.boundary]
+  | read n ib bits => left; simp only [step]; split <;> simp [modifyLast_length, TEv.boundary]
+  | newPhase ph now =>
+    cases ph with
+    | before => left; simp [step, TEv.boundary]
+    | during => left; simp [step, TEv.boundary]
+    | after =>
+      by_cases hp : st.pending = true
+      · left; simp [step, hp]
+      · right; simp [step, hp, flush]
+
+theorem step_key_le (j : Nat) (st : St) (e : TEv) : ¬ keyLt (step j st e).2.key st.key := by
+  rcases step_counters j st e with h | h <;> (unfold keyLt St.key; simp; omega)
+
+theorem step_key_lt (j : Nat) (st : St) (e : TEv) (hb : e.boundary = true) (hl : 1 ≤ st.phases.length) :
+    keyLt st.key (step j st e).2.key := by
+  rcases step_counters j st e with h | h
+  · have := h.2.2 hb; unfold keyLt St.key; simp; omega
+  · unfold keyLt St.key; simp; omega
+
+theorem step_len_pos (j : Nat) (st : St) (e : TEv) (hl : 1 ≤ st.phases.length) : 1 ≤ (step j st e).2.phases.length := by
+  rcases step_counters j st e with h | h <;> omega
+
+theorem keyLt_of_lt_of_le {a b c : Nat × Nat} (h1 : keyLt a b) (h2 : ¬ keyLt c b) : keyLt a c := by
+  unfold keyLt at *; omega
+
+theorem not_keyLt_trans {a b c : Nat × Nat} (h1 : ¬ keyLt b a) (h2 : ¬ keyLt c b) : ¬ keyLt c a := by
+  unfold keyLt at *; omega
+
+theorem slot_nonDuring (j : Nat) (st : St) (e : TEv) (r : List TEv) (b : Nat × Nat)
+    (hs : (slots j st (e :: r))[0]? = some (some b)) (hd : e.during = false) : b = st.key := by
+  cases e <;> simp [slots, TEv.during] at hs hd
+  · subst hd; simp at hs; exact hs.symm
+  · subst hd; simp at hs; exact hs.symm
+  · exact hs.symm
+
+/-- a recorded (non-postponed) statement never lies before the phase that was open when an earlier callback arrived -/
+theorem slots_ge : ∀ (evs : List TEv) (j : Nat) (st : St) (i : Nat) (b : Nat × Nat) (e : TEv),
+    (slots j st evs)[i]? = some (some b) → evs[i]? = some e → e.during = false → ¬ keyLt b st.key := by
   intro evs
   induction evs with
-  | nil => intro fl len i b e h; simp [slots] at h
+  | nil => intro j st i b e h; simp [slots] at h
   | cons e0 evs ih =>
-    intro fl len i b e hs he hd
+    intro j st i b e hs he hd
     cases i with
     | zero =>
       simp only [List.getElem?_cons_zero, Option.some.injEq] at he
       subst he
-      cases e0 <;> simp [slots, TEv.during] at hs hd
-      · subst hd; simp at hs; subst hs; exact keyLt_irrefl _
-      · subst hd; simp at hs; subst hs; exact keyLt_irrefl _
-      · subst hs; exact keyLt_irrefl _
+      rw [slot_nonDuring j st e0 evs b hs hd]; exact keyLt_irrefl _
     | succ i =>
-      simp only [List.getElem?_cons_succ] at he
-      cases e0 with
-      | powerOn =>
-        have := ih fl (len + 1) i b e (by simpa [slots] using hs) he hd
-        unfold keyLt at *; simp at *; omega
-      | microTick =>
-        have := ih fl (len + 1) i b e (by simpa [slots] using hs) he hd
-        unfold keyLt at *; simp at *; omega
-      | finish now =>
-        have := ih (fl + 1) 1 i b e (by simpa [slots] using hs) he hd
-        unfold keyLt at *; simp at *; omega
-      | newPhase after now =>
-        cases after with
-        | true =>
-          have := ih (fl + 1) 2 i b e (by simpa [slots] using hs) he hd
-          unfold keyLt at *; simp at *; omega
-        | false => exact ih fl len i b e (by simpa [slots] using hs) he hd
-      | set d n bits => exact ih fl len i b e (by simpa [slots] using hs) he hd
-      | rst d n v => exact ih fl len i b e (by simpa [slots] using hs) he hd
-      | read n ib bits => exact ih fl len i b e (by simpa [slots] using hs) he hd
+      have := ih (j + 1) (step j st e0).2 i b e (by simpa [slots] using hs) (by simpa using he) hd
+      exact not_keyLt_trans (step_key_le j st e0) this
 
 /-- after a phase boundary every recorded (non-postponed) statement lies strictly behind the phase that was open before it -/
-theorem slots_gt_after_boundary : ∀ (evs : List TEv) (fl len m j : Nat) (b : Nat × Nat) (em e : TEv), 1 ≤ len → m < j →
-    evs[m]? = some em → em.boundary = true → (slots fl len evs)[j]? = some (some b) → evs[j]? = some e → e.during = false →
-    keyLt (fl, len - 1) b := by
+theorem slots_gt_after_boundary : ∀ (evs : List TEv) (j : Nat) (st : St) (m k : Nat) (b : Nat × Nat) (em e : TEv),
+    1 ≤ st.phases.length → m < k → evs[m]? = some em → em.boundary = true →
+    (slots j st evs)[k]? = some (some b) → evs[k]? = some e → e.during = false → keyLt st.key b := by
   intro evs
   induction evs with
-  | nil => intro fl len m j b em e _ _ h; simp at h
+  | nil => intro j st m k b em e _ _ h; simp at h
   | cons e0 evs ih =>
-    intro fl len m j b em e hl hmj hem hb hs he hd
-    cases j with
+    intro j st m k b em e hl hmk hem hb hs he hd
+    cases k with
     | zero => omega
-    | succ j =>
-      simp only [List.getElem?_cons_succ] at he
+    | succ k =>
+      have hs' : (slots (j + 1) (step j st e0).2 evs)[k]? = some (some b) := by simpa [slots] using hs
+      have he' : evs[k]? = some e := by simpa using he
       cases m with
       | zero =>
         simp only [List.getElem?_cons_zero, Option.some.injEq] at hem
         subst hem
-        cases e0 with
-        | microTick =>
-          have := slots_ge evs fl (len + 1) j b e (by simpa [slots] using hs) he hd
-          unfold keyLt at *; simp at *; omega
-        | newPhase after now =>
-          cases after with
-          | true =>
-            have := slots_ge evs (fl + 1) 2 j b e (by simpa [slots] using hs) he hd
-            unfold keyLt at *; simp at *; omega
-          | false => simp [TEv.boundary] at hb
-        | powerOn => simp [TEv.boundary] at hb
-        | finish t => simp [TEv.boundary] at hb
-        | set d n bits => simp [TEv.boundary] at hb
-        | rst d n v => simp [TEv.boundary] at hb
-        | read n ib bits => simp [TEv.boundary] at hb
+        exact keyLt_of_lt_of_le (step_key_lt j st e0 hb hl) (slots_ge evs _ _ k b e hs' he' hd)
       | succ m =>
-        simp only [List.getElem?_cons_succ] at hem
-        cases e0 with
-        | powerOn =>
-          have := ih fl (len + 1) m j b em e (by omega) (by omega) hem hb (by simpa [slots] using hs) he hd
-          unfold keyLt at *; simp at *; omega
-        | microTick =>
-          have := ih fl (len + 1) m j b em e (by omega) (by omega) hem hb (by simpa [slots] using hs) he hd
-          unfold keyLt at *; simp at *; omega
-        | finish now =>
-          have := ih (fl + 1) 1 m j b em e (by omega) (by omega) hem hb (by simpa [slots] using hs) he hd
-          unfold keyLt at *; simp at *; omega
-        | newPhase after now =>
-          cases after with
-          | true =>
-            have := ih (fl + 1) 2 m j b em e (by omega) (by omega) hem hb (by simpa [slots] using hs) he hd
-            unfold keyLt at *; simp at *; omega
-          | false => exact ih fl len m j b em e hl (by omega) hem hb (by simpa [slots] using hs) he hd
-        | set d n bits => exact ih fl len m j b em e hl (by omega) hem hb (by simpa [slots] using hs) he hd
-        | rst d n v => exact ih fl len m j b em e hl (by omega) hem hb (by simpa [slots] using hs) he hd
-        | read n ib bits => exact ih fl len m j b em e hl (by omega) hem hb (by simpa [slots] using hs) he hd
+        have := ih (j + 1) (step j st e0).2 m k b em e (step_len_pos j st e0 hl) (by omega) (by simpa using hem) hb hs' he' hd
+        unfold keyLt at *; have := step_key_le j st e0; unfold keyLt at this; omega
 
-/-- after the AFTER-phase notification of a time step every recorded statement lies behind phase 0 of the next interval,
-    which is where the overrides postponed from the DURING phase go -/
-theorem slots_gt_after_edge : ∀ (evs : List TEv) (fl len m j : Nat) (b : Nat × Nat) (now : Rat) (e : TEv), m < j →
-    evs[m]? = some (.newPhase true now) → (slots fl len evs)[j]? = some (some b) → evs[j]? = some e → e.during = false →
-    keyLt (fl + 1, 0) b := by
+/-- after the AFTER notification every recorded statement lies strictly behind the phase that receives the postponed overrides -/
+theorem afterSlot_lt : ∀ (evs : List TEv) (j : Nat) (st : St) (m k : Nat) (a b : Nat × Nat) (now : Rat) (e : TEv),
+    afterSlot j st evs = some a → m < k → evs[m]? = some (.newPhase .after now) →
+    (slots j st evs)[k]? = some (some b) → evs[k]? = some e → e.during = false → keyLt a b := by
   intro evs
   induction evs with
-  | nil => intro fl len m j b now e _ h; simp at h
+  | nil => intro j st m k a b now e _ _ h; simp at h
   | cons e0 evs ih =>
-    intro fl len m j b now e hmj hem hs he hd
-    cases j with
+    intro j st m k a b now e ha hmk hem hs he hd
+    cases k with
     | zero => omega
-    | succ j =>
-      simp only [List.getElem?_cons_succ] at he
-      cases m with
-      | zero =>
-        simp only [List.getElem?_cons_zero, Option.some.injEq] at hem
-        subst hem
-        have := slots_ge evs (fl + 1) 2 j b e (by simpa [slots] using hs) he hd
-        unfold keyLt at *; simp at *; omega
-      | succ m =>
-        simp only [List.getElem?_cons_succ] at hem
-        cases e0 with
-        | powerOn => exact ih fl (len + 1) m j b now e (by omega) hem (by simpa [slots] using hs) he hd
-        | microTick => exact ih fl (len + 1) m j b now e (by omega) hem (by simpa [slots] using hs) he hd
-        | finish t =>
-          have := ih (fl + 1) 1 m j b now e (by omega) hem (by simpa [slots] using hs) he hd
-          unfold keyLt at *; simp at *; omega
-        | newPhase after t =>
-          cases after with
-          | true =>
-            have := ih (fl + 1) 2 m j b now e (by omega) hem (by simpa [slots] using hs) he hd
-            unfold keyLt at *; simp at *; omega
-          | false => exact ih fl len m j b now e (by omega) hem (by simpa [slots] using hs) he hd
-        | set d n bits => exact ih fl len m j b now e (by omega) hem (by simpa [slots] using hs) he hd
-        | rst d n v => exact ih fl len m j b now e (by omega) hem (by simpa [slots] using hs) he hd
-        | read n ib bits => exact ih fl len m j b now e (by omega) hem (by simpa [slots] using hs) he hd
+    | succ k =>
+      have hs' : (slots (j + 1) (step j st e0).2 evs)[k]? = some (some b) := by simpa [slots] using hs
+      have he' : evs[k]? = some e := by simpa using he
+      have hge := slots_ge evs _ _ k b e hs' he' hd
+      by_cases h0 : ∃ t, e0 = .newPhase .after t
+      · obtain ⟨t, rfl⟩ := h0
+        simp only [afterSlot, Option.some.injEq] at ha
+        subst ha
+        by_cases hp : st.pending = true
+        · simp only [St.key, step, hp, if_true] at hge
+          unfold keyLt postSlot at *; simp [hp] at *; omega
+        · have hp' : st.pending = false := by simpa using hp
+          simp only [St.key, step, hp', flush] at hge
+          unfold keyLt postSlot at *; simp [hp'] at *; omega
+      · have ha' : afterSlot (j + 1) (step j st e0).2 evs = some a := by
+          cases e0 with
+          | newPhase ph t =>
+            cases ph with
+            | after => exact absurd ⟨t, rfl⟩ h0
+            | before => simpa [afterSlot] using ha
+            | during => simpa [afterSlot] using ha
+          | _ => simpa [afterSlot] using ha
+        cases m with
+        | zero =>
+          simp only [List.getElem?_cons_zero, Option.some.injEq] at hem
+          exact absurd ⟨now, hem⟩ h0
+        | succ m => exact ih (j + 1) _ m k a b now e ha' (by omega) (by simpa using hem) hs' he' hd
 
-/-- recording order ⇒ group order, generic in the counters -/
-theorem slots_order : ∀ (evs : List TEv) (fl len i m j : Nat) (a b : Nat × Nat) (ei em ej : TEv), 1 ≤ len → i < m → m < j →
-    (slots fl len evs)[i]? = some (some a) → evs[i]? = some ei →
-    evs[m]? = some em → (if ei.during then ∃ now, em = .newPhase true now else em.boundary = true) →
-    (slots fl len evs)[j]? = some (some b) → evs[j]? = some ej → ej.during = false →
+/-- recording order ⇒ group order -/
+theorem slots_order : ∀ (evs : List TEv) (j : Nat) (st : St) (i m k : Nat) (a b : Nat × Nat) (ei em ek : TEv),
+    1 ≤ st.phases.length → i < m → m < k →
+    (slots j st evs)[i]? = some (some a) → evs[i]? = some ei →
+    evs[m]? = some em → (if ei.during then ∃ now, em = .newPhase .after now else em.boundary = true) →
+    (slots j st evs)[k]? = some (some b) → evs[k]? = some ek → ek.during = false →
     keyLt a b := by
   intro evs
   induction evs with
-  | nil => intro fl len i m j a b ei em ej _ _ _ h; simp [slots] at h
+  | nil => intro j st i m k a b ei em ek _ _ _ h; simp [slots] at h
   | cons e0 evs ih =>
-    intro fl len i m j a b ei em ej hl him hmj hsa hei hem hcond hsb hej hd
+    intro j st i m k a b ei em ek hl him hmk hsa hei hem hcond hsb hek hd
     cases m with
     | zero => omega
     | succ m =>
-      cases j with
+      cases k with
       | zero => omega
-      | succ j =>
-        simp only [List.getElem?_cons_succ] at hem hej
+      | succ k =>
+        have hsb' : (slots (j + 1) (step j st e0).2 evs)[k]? = some (some b) := by simpa [slots] using hsb
+        have hek' : evs[k]? = some ek := by simpa using hek
+        have hem' : evs[m]? = some em := by simpa using hem
         cases i with
         | zero =>
           simp only [List.getElem?_cons_zero, Option.some.injEq] at hei
           subst hei
-          cases e0 with
-          | powerOn => simp [slots] at hsa
-          | microTick => simp [slots] at hsa
-          | finish t => simp [slots] at hsa
-          | newPhase after t => simp [slots] at hsa
-          | read n ib bits =>
-            simp only [slots, List.getElem?_cons_zero, Option.some.injEq] at hsa
-            simp only [TEv.during, Bool.false_eq_true, if_false] at hcond
-            subst hsa
-            exact slots_gt_after_boundary evs fl len m j b em ej hl (by omega) hem hcond (by simpa [slots] using hsb) hej hd
-          | set d n bits =>
-            simp only [slots, List.getElem?_cons_zero, Option.some.injEq] at hsa
-            cases d with
-            | false =>
-              simp only [TEv.during, Bool.false_eq_true, if_false] at hcond hsa
-              subst hsa
-              exact slots_gt_after_boundary evs fl len m j b em ej hl (by omega) hem hcond (by simpa [slots] using hsb) hej hd
-            | true =>
-              simp only [TEv.during, if_true] at hcond hsa
-              obtain ⟨now, rfl⟩ := hcond
-              subst hsa
-              exact slots_gt_after_edge evs fl len m j b now ej (by omega) hem (by simpa [slots] using hsb) hej hd
-          | rst d n v =>
-            simp only [slots, List.getElem?_cons_zero, Option.some.injEq] at hsa
-            cases d with
-            | false =>
-              simp only [TEv.during, Bool.false_eq_true, if_false] at hcond hsa
-              subst hsa
-              exact slots_gt_after_boundary evs fl len m j b em ej hl (by omega) hem hcond (by simpa [slots] using hsb) hej hd
-            | true =>
-              simp only [TEv.during, if_true] at hcond hsa
-              obtain ⟨now, rfl⟩ := hcond
-              subst hsa
-              exact slots_gt_after_edge evs fl len m j b now ej (by omega) hem (by simpa [slots] using hsb) hej hd
+          by_cases hdu : e0.during = true
+          · simp only [hdu, if_true] at hcond
+            obtain ⟨now, rfl⟩ := hcond
+            -- the slot of a postponed override is `afterSlot`
+            have ha : afterSlot j st (e0 :: evs) = some a := by
+              cases e0 <;> simp [TEv.during] at hdu
+              · subst hdu; simpa [slots] using hsa
+              · subst hdu; simpa [slots] using hsa
+            exact afterSlot_lt (e0 :: evs) j st (m + 1) (k + 1) a b now ek ha (by omega) hem hsb hek hd
+          · have hdu' : e0.during = false := by simpa using hdu
+            simp only [hdu', Bool.false_eq_true, if_false] at hcond
+            rw [slot_nonDuring j st e0 evs a hsa hdu']
+            have := slots_gt_after_boundary evs (j + 1) (step j st e0).2 m k b em ek (step_len_pos j st e0 hl) (by omega) hem' hcond hsb' hek' hd
+            have h2 := step_key_le j st e0
+            unfold keyLt at *; omega
         | succ i =>
-          simp only [List.getElem?_cons_succ] at hei
-          cases e0 with
-          | powerOn => exact ih fl (len + 1) i m j a b ei em ej (by omega) (by omega) (by omega) (by simpa [slots] using hsa) hei hem hcond (by simpa [slots] using hsb) hej hd
-          | microTick => exact ih fl (len + 1) i m j a b ei em ej (by omega) (by omega) (by omega) (by simpa [slots] using hsa) hei hem hcond (by simpa [slots] using hsb) hej hd
-          | finish t => exact ih (fl + 1) 1 i m j a b ei em ej (by omega) (by omega) (by omega) (by simpa [slots] using hsa) hei hem hcond (by simpa [slots] using hsb) hej hd
-          | newPhase after t =>
-            cases after with
-            | true => exact ih (fl + 1) 2 i m j a b ei em ej (by omega) (by omega) (by omega) (by simpa [slots] using hsa) hei hem hcond (by simpa [slots] using hsb) hej hd
-            | false => exact ih fl len i m j a b ei em ej hl (by omega) (by omega) (by simpa [slots] using hsa) hei hem hcond (by simpa [slots] using hsb) hej hd
-          | set d n bits => exact ih fl len i m j a b ei em ej hl (by omega) (by omega) (by simpa [slots] using hsa) hei hem hcond (by simpa [slots] using hsb) hej hd
-          | rst d n v => exact ih fl len i m j a b ei em ej hl (by omega) (by omega) (by simpa [slots] using hsa) hei hem hcond (by simpa [slots] using hsb) hej hd
-          | read n ib bits => exact ih fl len i m j a b ei em ej hl (by omega) (by omega) (by simpa [slots] using hsa) hei hem hcond (by simpa [slots] using hsb) hej hd
+          exact ih (j + 1) (step j st e0).2 i m k a b ei em ek (step_len_pos j st e0 hl) (by omega) (by omega)
+            (by simpa [slots] using hsa) (by simpa using hei) hem' hcond hsb' hek' hd
 
 end Gatery.C20.TV
